@@ -82,7 +82,9 @@ RULE = ("the lattice emitter kind (GaussianEmitter, IsoLineEmitter, GeneticAlgor
         "clear) are drawn at random; every batch a clipping emitter's ask() hands out is overwritten in place after "
         "it was read, and initial_solutions cases end with clear / ask sequences, so that the configured initial "
         "solutions must come back on every later empty archive. Stratum pycma_shared: two pycma_es emitters (different "
-        "batch sizes, bounds, seeds) built from ONE shared es_kwargs dict, run past their restarts. Strata long_<es>: "
+        "batch sizes, bounds, seeds) built from ONE shared es_kwargs dict, run past their restarts. Strata big_<es>: deterministic size-threshold cases for every strategy (batch 64-256 on "
+        "solution_dim 1-3 with selection_rule mu on a sphere; LM-MA-ES with batch 32-48 on dimension 40-64 and with "
+        "es_kwargs n_vectors 40 / 64; 26-70 uninterrupted generations), every ask read. Strata long_<es>: "
         "deterministic long histories (260-400 iterations) of every strategy on the linear objective f(x) = x[0]. The ES "
         "bounds layouts include 'halfspace' (every dimension bounded on one side only). A case is non-trivial when it asks at least "
         "once on a non-empty archive and the configuration has a finite bound or mixed dtypes; counted once per "
@@ -1176,11 +1178,16 @@ def run_group(ctx, kinds):
     quick = ctx.quick
     lo_it, hi_it = (5, 6) if quick else (6, 30)
     rc = lambda case: run_case(case, ctx)
-    warm_up([k for k in kinds if k not in ("bounds", "pycma_shared") and not k.startswith("long_")])
+    warm_up([k for k in kinds if k not in ("bounds", "pycma_shared") and not k.startswith(("long_", "big_"))])
     for kind in kinds:
         if kind == "bounds":
             ctx.explore("bounds", gen_bounds_case, lambda c: run_bounds_case(c, ctx), ctx.n(60, 2000),
                         time_budget=3 if quick else 20)
+            continue
+        if kind.startswith("big_"):
+            es = kind[len("big_"):]
+            ctx.explore(kind, make_big_gen(es, quick), lambda c: run_long_linear(c, ctx), ctx.n(4, 8),
+                        time_budget=6 if quick else 60)
             continue
         if kind.startswith("long_"):
             es = kind[len("long_"):]
@@ -1211,9 +1218,10 @@ BUDGET.update({"cma_es": (6, 200), "sep_cma_es": (6, 200), "lm_ma_es": (4, 110),
 GROUPS = [
     ["bounds", "gauss", "ga_gauss", "iso", "ga_iso"],
     ["gop_iso", "gop_iso_mg", "gop_line", "gop_line_mg", "gae_j32", "gae_j64"],
-    ["cma_es", "long_cma_es"],
-    ["sep_cma_es", "long_sep_cma_es"],
-    ["lm_ma_es", "openai_es", "pycma_es", "pycma_shared", "long_lm_ma_es", "long_openai_es", "long_pycma_es"],
+    ["cma_es", "long_cma_es", "big_cma_es"],
+    ["sep_cma_es", "long_sep_cma_es", "big_sep_cma_es"],
+    ["lm_ma_es", "openai_es", "pycma_es", "pycma_shared", "long_lm_ma_es", "long_openai_es", "long_pycma_es",
+     "big_lm_ma_es", "big_openai_es", "big_pycma_es"],
 ]
 
 
@@ -1253,6 +1261,9 @@ def run_long_linear(case, ctx):
     es, sd, md, dim, batch = case["es"], case["sd"], case["md"], case["dim"], case["batch"]
     arch = mk_archive("grid", dim, sd, md, case["aseed"])
     kw = {"mirror_sampling": False} if es == "openai_es" else {}
+    kw.update(case.get("es_kwargs") or {})
+    sphere = case.get("objective") == "sphere"
+    fname = "-|x|^2" if sphere else "x[0]"
     try:
         em = EvolutionStrategyEmitter(arch, es=es, es_kwargs=kw, ranker=case["ranker"],
                                       selection_rule=case["selection"], restart_rule=case["restart"],
@@ -1262,7 +1273,9 @@ def run_long_linear(case, ctx):
         return Failure("oracle", f"constructor raised {type(ex).__name__}: {str(ex)[:100]}")
     lo, hi = em.lower_bounds, em.upper_bounds
     for it in range(case["iters"]):
-        where = f"iteration {it} ask ({es}, {np.dtype(D[sd]).name} solutions, objective f(x) = x[0])"
+        where = (f"iteration {it} ask ({es}, solution_dim {dim}, batch_size {batch}"
+                 f"{', es_kwargs ' + str(case['es_kwargs']) if case.get('es_kwargs') else ''}, "
+                 f"{np.dtype(D[sd]).name} solutions, objective f(x) = {fname})")
         try:
             out = timed(em.ask)
         except AskTimeout:
@@ -1278,16 +1291,58 @@ def run_long_linear(case, ctx):
                            f"diagonal covariance grow without bound on a linear objective and no stop criterion fires")
             return f
         sols = np.asarray(out, dtype=np.float64)
-        obj = sols[:, 0]
-        meas = np.clip(sols[:, 1:3], -2.0, 2.0)
+        obj = -np.sum(sols**2, axis=1) if sphere else sols[:, 0]
+        meas = np.zeros((len(sols), 2))
+        src = sols[:, 1:3] if dim >= 3 else sols[:, :min(dim, 2)]
+        meas[:, :src.shape[1]] = np.clip(src, -2.0, 2.0)
         try:
             em.tell(out, obj, meas, arch.add(out, obj, meas))
         except Exception as ex:  # pylint: disable=broad-except
-            ctx.count(f"tell-raised:long_linear:{es}:{type(ex).__name__}")
+            ctx.count(f"tell-raised:{case.get('profile', 'long_linear')}:{es}:{type(ex).__name__}")
             return None
-    ctx.count(f"long_linear:{es}:iterations", case["iters"])
-    ctx.count(f"long_linear:{es}:restarts", int(em.restarts))
+    ctx.count(f"{case.get('profile', 'long_linear')}:{es}:iterations", case["iters"])
+    ctx.count(f"{case.get('profile', 'long_linear')}:{es}:restarts", int(em.restarts))
     return None
+
+
+# size thresholds: LARGE batches on SMALL dimensions (mueff >> n), many direction vectors, tens of uninterrupted
+# generations -- a few deterministic cases per strategy on every run; every ask is read (finite, shape, dtype, bounds)
+
+def big_cases(es, quick):
+    base = {"kind": "long_linear", "profile": "big", "es": es, "sd": "f64", "md": "f64", "x0": "1", "sigma": "1/2",
+            "ranker": "obj", "selection": "mu", "restart": "basic", "objective": "sphere", "seed": 1, "aseed": 1,
+            "iters": 30}
+    out = []
+    if es == "lm_ma_es":
+        # batch_size <= solution_dim is required (batch == dim is C18's open finding D50): large batches need large
+        # dimensions; n_vectors (default: batch_size) is also set independently through es_kwargs
+        shapes = [dict(dim=40, batch=32, iters=45), dict(dim=6, batch=4, es_kwargs={"n_vectors": 40}, iters=45),
+                  dict(dim=64, batch=48, iters=40, sd="f32", md="f32"),
+                  dict(dim=8, batch=6, es_kwargs={"n_vectors": 64}, iters=70, ranker="2imp")]
+    else:
+        shapes = [dict(dim=1, batch=64), dict(dim=2, batch=128), dict(dim=3, batch=256, iters=26),
+                  dict(dim=2, batch=96, ranker="2imp", sd="f32", md="f32"),
+                  dict(dim=1, batch=200, selection="filter", restart="no_improvement"),
+                  dict(dim=3, batch=128, objective="linear", iters=40),
+                  dict(dim=2, batch=256, sd="f32", md="f64", seed=5), dict(dim=1, batch=100, ranker="imp", seed=7)]
+    for i, sh in enumerate(shapes[:4] if quick else shapes):
+        c = dict(base)
+        c.update(sh)
+        c["ops"] = [{"op": "cfg", "tag": f"big/{es}/{i}"}]
+        out.append(c)
+    return out
+
+
+def make_big_gen(es, quick):
+    cases = big_cases(es, quick)
+    it = {"i": 0}
+
+    def gen(_rng):
+        c = dict(cases[it["i"] % len(cases)])
+        it["i"] += 1
+        return c
+
+    return gen
 
 
 def make_long_gen(es, quick):
